@@ -31,6 +31,7 @@ const kvSrc = `package kv
 import (
 	"github.com/nspcc-dev/neo-go/pkg/interop"
 	"github.com/nspcc-dev/neo-go/pkg/interop/contract"
+	"github.com/nspcc-dev/neo-go/pkg/interop/iterator"
 	"github.com/nspcc-dev/neo-go/pkg/interop/native/management"
 	"github.com/nspcc-dev/neo-go/pkg/interop/runtime"
 	"github.com/nspcc-dev/neo-go/pkg/interop/storage"
@@ -73,6 +74,14 @@ func tryCall(h interop.Hash160, k, v []byte) {
 	defer func() { _ = recover() }()
 	contract.Call(h, "fail", contract.All, append(k, 1), v)
 }
+func Find(prefix []byte, opts int) []any {
+	it := storage.Find(storage.GetReadOnlyContext(), prefix, storage.FindFlags(opts))
+	var res []any
+	for iterator.Next(it) {
+		res = append(res, iterator.Value(it))
+	}
+	return res
+}
 func Update(nef, manifest []byte) { management.Update(nef, manifest) }
 func Destroy()                    { management.Destroy() }
 func Version() int                { return variant }
@@ -85,9 +94,9 @@ var wild = func() manifest.Permission {
 }()
 
 // KV compiles the scenario contract (variant makes different NEFs).
-func KV(t testing.TB, sender util.Uint160, variant int) *neotest.Contract {
+func KV(t testing.TB, sender util.Uint160, variant int, name int) *neotest.Contract {
 	return neotest.CompileSource(t, sender, strings.NewReader(fmt.Sprintf(kvSrc, variant)), &compiler.Options{
-		Name: fmt.Sprintf("kv%d", variant%3), NoEventsCheck: true, NoPermissionsCheck: true, SafeMethods: []string{"get", "version"},
+		Name: fmt.Sprintf("kv%d", name), NoEventsCheck: true, NoPermissionsCheck: true, SafeMethods: []string{"get", "version", "find"},
 		ContractEvents: []compiler.HybridEvent{{Name: "E1", Parameters: []compiler.HybridParameter{{Parameter: manifest.Parameter{Name: "v", Type: smartcontract.IntegerType}}}}},
 		Permissions:    []manifest.Permission{wild},
 	})
@@ -103,6 +112,8 @@ type Gen struct {
 	Accts []neotest.SingleSigner
 	Cands map[int]bool // indexes of Accts currently registered (as far as the generator knows)
 	KVs   []util.Uint160
+	kvName map[util.Uint160]int
+	AllKVs []util.Uint160 // every scenario contract ever deployed (destroyed ones too)
 	nvar  int
 	// Stats counts generated transaction kinds.
 	Stats  map[string]int
@@ -119,7 +130,7 @@ func DefaultWeights() map[string]int {
 
 // New funds nacc accounts on a fresh reference chain (consumes the first block).
 func New(t testing.TB, net *chainkit.Net, bc *core.Blockchain, seed int64, nacc int) *Gen {
-	g := &Gen{T: t, Net: net, BC: bc, E: net.Executor(t, bc), R: rand.New(rand.NewSource(seed)), Cands: map[int]bool{},
+	g := &Gen{T: t, Net: net, BC: bc, E: net.Executor(t, bc), R: rand.New(rand.NewSource(seed)), Cands: map[int]bool{}, kvName: map[util.Uint160]int{},
 		Stats: map[string]int{}, Weights: DefaultWeights()}
 	for i := 0; i < nacc; i++ {
 		g.Accts = append(g.Accts, neotest.NewSingleSigner(wallet.NewAccountFromPrivateKey(chainkit.Key(fmt.Sprintf("acct-%d", i)))))
@@ -291,23 +302,26 @@ func (g *Gen) one() *transaction.Transaction {
 			return nil
 		}
 		g.nvar++
-		c := KV(g.T, a.ScriptHash(), g.nvar)
+		c := KV(g.T, a.ScriptHash(), g.nvar, g.nvar)
 		tx = g.safeDeploy(a, c)
 		if tx != nil {
 			g.KVs = append(g.KVs, c.Hash)
+			g.kvName[c.Hash] = g.nvar
+			g.AllKVs = append(g.AllKVs, c.Hash)
 		}
 	case "update":
 		if len(g.KVs) == 0 {
 			return nil
 		}
 		g.nvar++
-		c := KV(g.T, a.ScriptHash(), g.nvar)
+		target := g.KVs[g.R.Intn(len(g.KVs))]
+		c := KV(g.T, a.ScriptHash(), g.nvar, g.kvName[target])
 		nb, err1 := c.NEF.Bytes()
 		mb, err2 := jsonManifest(c)
 		if err1 != nil || err2 != nil {
 			return nil
 		}
-		tx = g.tx(sa, g.KVs[g.R.Intn(len(g.KVs))], "update", nb, mb)
+		tx = g.tx(sa, target, "update", nb, mb)
 	case "destroy":
 		if len(g.KVs) < 2 {
 			return nil
